@@ -1,6 +1,7 @@
 package c13
 
 import (
+	"encoding/json"
 	"flag"
 	"os"
 	"testing"
@@ -28,6 +29,7 @@ func TestReplay(t *testing.T) { props.ReplayMain(t, *replayFile) }
 const ruleC13 = "histories over {new policy (v4/v6/raw same, changed, reverted), approve ok, approve failed, compare, manual drift, " +
 	"bzip2 of an old policy, removal of an old policy, damaged status file} on 1-3 devices with strictly increasing clock; " +
 	"status.SetApprove/SetCompare driven in-process by a reference model of the device, the real missing-approve binary asked after every action; " +
+	"plus an end-to-end arm: histories over {new policy, do-approve approve, do-approve compare (each with or without --brief), manual drift} with the real do-approve against the IOS simulator writing the status file; " +
 	"non-trivial = history of >=4 actions with a new policy after an observation and at least one of " +
 	"{failed approve, drift followed by compare, bzip2, removal, damage}; distinct = the history (JSON)"
 
@@ -41,6 +43,38 @@ func TestC13(t *testing.T) {
 	if props.Thorough() {
 		maxActs = 20
 	}
+	t.Run("e2e", func(t *testing.T) {
+		// Each history costs several runs of the real binaries: a bounded
+		// number per shard.
+		budget := 30
+		if props.Thorough() {
+			budget = 150
+		}
+		done := 0
+		rapid.Check(t, func(rt *rapid.T) {
+			if done >= budget {
+				return
+			}
+			done++
+			n := rapid.IntRange(2, 7).Draw(rt, "len")
+			h := []E2EAction{{Op: "newpolicy", V: rapid.IntRange(1, 2).Draw(rt, "v0")}}
+			for len(h) < n+1 {
+				switch rapid.SampledFrom([]string{"newpolicy", "approve", "approve", "compare", "compare", "compare", "drift", "drift"}).Draw(rt, "op") {
+				case "newpolicy":
+					h = append(h, E2EAction{Op: "newpolicy", V: rapid.IntRange(1, 3).Draw(rt, "v")})
+				case "approve":
+					h = append(h, E2EAction{Op: "approve", Brief: rapid.Bool().Draw(rt, "brief")})
+				case "compare":
+					h = append(h, E2EAction{Op: "compare", Brief: rapid.Bool().Draw(rt, "brief")})
+				case "drift":
+					h = append(h, E2EAction{Op: "drift", V: rapid.IntRange(1, 3).Draw(rt, "dv")})
+				}
+			}
+			data, _ := json.Marshal(h)
+			c := &props.Case{Property: "C13", Family: "e2e", Files: tool.Files{}, Params: map[string]string{"history": string(data)}, Gen: "e2e arm"}
+			props.Judge(rt, ev, oracleE2E, c, func() any { return c })
+		})
+	})
 	t.Run("status", func(t *testing.T) {
 		rapid.Check(t, func(rt *rapid.T) {
 			h := GenHistory(rt, maxActs)
